@@ -90,6 +90,14 @@ class C19(CfProp):
         while len(cases) < n:
             g = GG.rand_admg(rng, 2, 5)
             g = {"nodes": sorted(g["nodes"]), "dir": g["dir"], "bid": g["bid"]}
+            if rng.random() < 0.25:
+                # a directed chain (ancestor sets grow with every edge), its edges listed in random order, plus a few random edges
+                k = rng.randint(3, 5)
+                order = list(range(k)); rng.shuffle(order)
+                chain = [[order[i], order[i + 1]] for i in range(k - 1)]
+                extra = [[order[i], order[j]] for i in range(k) for j in range(i + 2, k) if rng.random() < 0.15]
+                di = chain + extra; rng.shuffle(di)
+                g = {"nodes": list(range(k)), "dir": di, "bid": [[order[i], order[j]] for i in range(k) for j in range(i + 1, k) if rng.random() < 0.15]}
             kind = rng.choice(self.KINDS)
             c = {"kind": kind, "g": g}
             if kind in ("min", "anc"):
